@@ -186,6 +186,13 @@ static std::vector<Scenario> catalogue() {
 	s.push_back({ "xml_load_stream", true, true, [=] { return save_str<XmlArchive>(doc()); }, [](const std::string& in) { load_stream<XmlArchive, Doc>(in); } });
 	s.push_back({ "xml_save_mem", false, false, nullptr, [=](const std::string&) { save_mem<XmlArchive>(doc()); } });
 	s.push_back({ "xml_save_stream", false, true, nullptr, [=](const std::string&) { save_stream<XmlArchive>(doc()); } });
+	// ---- byte containers (MsgPack bin): as the last member, as the root, as elements; the payload is written byte by byte
+	s.push_back({ "mp_bin_save_stream", false, true, nullptr, [](const std::string&) { save_stream<MsgPackArchive>(make_bindoc(3)); } });
+	s.push_back({ "mp_bin_save_mem", false, false, nullptr, [](const std::string&) { save_mem<MsgPackArchive>(make_bindoc(3)); } });
+	s.push_back({ "mp_binroot_save_stream", false, true, nullptr, [](const std::string&) { save_stream<MsgPackArchive>(make_bindoc(5).blob); } });
+	s.push_back({ "mp_bin_load_mem", true, false, [] { return save_str<MsgPackArchive>(make_bindoc(3)); }, [](const std::string& in) { load_mem<MsgPackArchive, BinDoc>(in); } });
+	s.push_back({ "mp_bin_load_stream", true, true, [] { return save_str<MsgPackArchive>(make_bindoc(3)); }, [](const std::string& in) { load_stream<MsgPackArchive, BinDoc>(in); } });
+	s.push_back({ "json_bin_save_stream", false, true, nullptr, [](const std::string&) { save_stream<JsonArchive>(make_bindoc(3)); } });
 	// ---- owning members (unique_ptr / shared_ptr / optional of classes and containers, also as elements): a load that throws
 	//      (truncation, allocation failure, stream failure) must not leak the objects created for loading
 	auto odoc = [] { return make_owner_doc(5); };
